@@ -128,8 +128,6 @@ NOT_APPLICABLE = []
 # because that is where the schema puts "properties you do not claim, each with a one-line reason".
 UNCLAIMED = {
     "C13": "not claimed: the engine (seeded scheduler over the real flock/unlink calls of fs/os_unix.go) is not built; the technique applies (DESIGN.md 4/C13, 11)",
-    "C14": "not claimed: the aliasing/poison personality exists in SimFS but the snapshot oracle over retained slices is not validated as a check of its own, and the real-mmap part is not built (DESIGN.md 4/C14, 11)",
-    "C17": "not claimed: needs the uninstrumented real-file-system build of the harness (fs.Mem / fs.OS / fs.OSMMap differential), which is not built (DESIGN.md 4/C17, 11)",
     "C18": "not claimed: the golden image corpus written by the pinned build is not built; the decoder invariant half runs inside C01-C06 but is not a check of C18 (DESIGN.md 4/C18, 11)",
 }
 
@@ -232,18 +230,52 @@ TEXT["C12"] = _t("sim+harness", "deterministic simulation: Backup task vs one wr
 
 PROPS["C15"] = dict(
     level="exploration",
-    runs=dict(quick=2400, thorough=30000), budget_s=dict(quick=170, thorough=1700),
-    rule="one run = one seeded steady overwrite/delete workload over a fixed key universe (3-90 keys, colliding families) in 6-25 cycles (thorough 10-70): writes, optionally a purge of every key, Compact, then a random subset of Sync/Put/Delete/Backup/Close+Open/Compact; "
+    runs=dict(quick=2400, thorough=30000), budget_s=dict(quick=170, thorough=1700), mem_gb=None,
+    rule="4 of 5 runs: one seeded steady overwrite/delete workload over a fixed key universe (3-90 keys, colliding families) in 6-25 cycles (thorough 10-70): writes, optionally a purge of every key, Compact, then a random subset of Sync/Put/Delete/Backup/Close+Open/Compact; "
          "one evaluation = one Compact call audited at the file-system seam: number of segment files gone == CompactedSegments, no side file without its segment, every file of the directory is a live segment / its side file / index / metadata / lock, "
          "open handles == live segments + 2 index files (0 after Close), segment bytes <= 1.5 x live record bytes / (1 - fragmentation threshold) + 2 segments + 2 KiB, index bytes <= 512 x (6 + max keys ever live / 6); "
-         "the audit of directory, handles and index size runs after every API call; every call must return nil, every Backup is opened and compared with the model; "
+         "the audit of directory, handles and index size runs after every API call; every call must return nil, every Backup is opened and compared with the model. "
+         "1 of 5 runs: a seeded program with compactions and clean restarts on the real fs.OS and fs.OSMMap in a run-time temporary directory; at every checkpoint the descriptors under the directory (/proc/self/fd) must number live segments + 3 and the mappings (/proc/self/maps) live segments + 2 on fs.OSMMap, 0 after Close; "
          "distinct_nontrivial = distinct (model, segment bytes) states after compactions",
-    real=REAL_SEQ, stub=STUB_SEQ,
-    assumptions=["sequential histories with clean restarts only (the property's quantifier); descriptors and mappings are the handle table of the simulated disk - real /proc/self/fd and /proc/self/maps counts on fs.OSMMap are taken by the C17 engine's runs",
+    real=REAL_SEQ + ["fs.OS, fs.OSMMap (real descriptors and mappings) in 1 of 5 runs"], stub=STUB_SEQ,
+    assumptions=["sequential histories with clean restarts only (the property's quantifier)",
                  "the byte bounds are deliberately loose (measured peak: 0.57 of the segment bound, 0.59 of the index bound): they separate 'bounded by live data' from 'grows with history', they do not pin the compaction policy"],
-    must_reach=dict(quick=["compaction_cycles", "compaction_removed_every_segment", "backup_verified", "clean_reopen", "segment_removed", "overflow_bucket_allocated"],
+    must_reach=dict(quick=["compaction_cycles", "compaction_removed_every_segment", "backup_verified", "clean_reopen", "segment_removed", "overflow_bucket_allocated", "proc_fd_samples", "program_executed_on_osmmap"],
                     thorough=["compaction_removed_every_segment"]),
 )
 TEXT["C15"] = _t("harness", "deterministic simulation (fault-free configuration): long seeded compaction cycles on the simulated disk, directory / handle-table / size audit at the file-system seam after every call",
                  "Seeded long-running overwrite/delete/compact/restart cycles; after every call the simulated disk's directory and handle table are audited against the allowed file set and size bounds derived from the live data; post-compaction usability (Sync, Put, Delete, Backup, Close) exercised incl. compaction that removes every segment.",
-                 "Sampling of histories and thresholds; sequential only. Real descriptors/mappings are not observed here.", "DESIGN.md 4/C15, 11")
+                 "Sampling of histories and thresholds; sequential only. Real descriptors and mappings are counted through /proc/self in the runs on fs.OS / fs.OSMMap.", "DESIGN.md 4/C15, 11")
+
+REAL_XFS = REAL_SEQ + ["fs.Mem, fs.OS, fs.OSMMap (real files, real mmap/munmap, real flock in a run-time temporary directory under /dev/shm or $TMPDIR)"]
+PROPS["C17"] = dict(
+    level="exploration",
+    runs=dict(quick=9000, thorough=200000), budget_s=dict(quick=170, thorough=1700), mem_gb=None,
+    rule="one evaluation = one seeded program (8-90 calls, thorough up to 200: Put/Delete/Get/GetAppend/Has/Count/Items/Sync/Compact/FileSize, clean Close/Open, and 0-2 unclean shutdowns taken as a copy of the directory right before the k-th mutating file-system call of an operation "
+         "- optionally with the in-flight write torn at a 512-byte boundary, or zeros / garbage appended to the newest segment) executed four times: on the simulated disk, fs.Mem, fs.OS and fs.OSMMap, with the same hash seeds and the same (seeded) directory listing order; "
+         "the four traces (every call's result, error nil-ness, Count, sorted scan digests, CompactionResult, FileSize, recovery yes/no, and name:length:digest of every segment file at checkpoints after each Close, each recovery, every 8th call) must be identical, "
+         "every result must equal the reference map, after an unclean shutdown each key must hold its value from before or after the operation in flight; distinct_nontrivial = distinct traces",
+    real=REAL_XFS, stub=["crypto/rand (same hash seed on every file system)", "the simulated disk is one of the four file systems compared"],
+    assumptions=["unclean shutdown on the real file systems = copy of the directory taken through the FileSystem interface while the database is open (process-crash image; no power-loss model on real files)",
+                 "the mapping-doubling path of fs.OSMMap (files beyond the initial 1 GiB mapping) is not reached"],
+    must_reach=dict(quick=["program_executed_on_simfs", "program_executed_on_mem", "program_executed_on_os", "program_executed_on_osmmap", "recovery_ran", "torn_write", "damaged_tail", "compacted_segments", "unclean_shutdown_inside_op"],
+                    thorough=["torn_write", "recovery_ran"]),
+)
+TEXT["C17"] = _t("harness", "deterministic simulation, differential configuration: one seeded program incl. injected unclean shutdowns (directory snapshot before the k-th FS call, torn in-flight write, damaged tail) executed on the simulated disk and the three shipped file systems; traces and segment bytes compared",
+                 "Seeded programs with clean restarts and injected unclean shutdowns run on SimFS, fs.Mem, fs.OS and fs.OSMMap; call results and the bytes of every segment file must agree across all four and with the reference map.",
+                 "Programs and crash points sampled. Real files live in a run-time temp directory; the 1 GiB mmap doubling path is not reached.", "DESIGN.md 4/C17, 11")
+PROPS["C14"] = dict(
+    level="exploration",
+    runs=dict(quick=8000, thorough=150000), budget_s=dict(quick=170, thorough=1700), mem_gb=None, gomaxprocs=4,
+    rule="5 of 10 runs: sequential history (10-200 calls) on the simulated disk in its aliasing + poisoning personality (Slice returns a view of the file buffer; the buffer is overwritten with 0xDB whenever the file grows, is truncated, or its last handle is closed - i.e. on every 'remap'/'munmap'); "
+         "every slice returned by Get/GetAppend/Next (up to 600 per run) is kept with a private snapshot and re-compared after every later call; no returned slice may point into a file buffer; every key/value argument is overwritten right after the call returns and later reads must still return the written bytes. "
+         "3 of 10: the cross-file-system engine of C17 on SimFS, fs.Mem and fs.OSMMap (real mmap/munmap, SetPanicOnFault: reading a retained slice after Close/segment removal must neither fault nor differ). "
+         "2 of 10: concurrent run (C07 engine) on the poisoning personality with retained slices checked after Close. distinct_nontrivial = distinct states / traces / schedules",
+    real=REAL_XFS + ["seeded scheduler runs: the database's own background worker"], stub=STUB_SEQ,
+    assumptions=["the simulated disk poisons on every growth/truncate/close, which is more hostile than any shipped file system (fs.OSMMap remaps only past 1 GiB) and legal for a FileSystem implementation",
+                 "fs.OSMMap's own remapping beyond 1 GiB is not reached"],
+    must_reach=dict(quick=["buffer_poisoned", "file_remapped", "slices_retained", "segment_removed_while_slices_retained", "retained_slices_checked", "program_executed_on_osmmap", "clean_reopen"], thorough=["buffer_poisoned"]),
+)
+TEXT["C14"] = _t("sim+harness", "deterministic simulation with fault injection at the file-system seam: aliasing + buffer-poisoning disk personality (every remap/unmap destroys what earlier Slice results point to), retained-slice snapshot oracle; plus real mmap/munmap with faults turned into panics",
+                 "Every slice the database returns is kept and re-compared after every later call while files grow, are truncated, compacted away and closed on a disk that poisons unmapped buffers; arguments are scribbled after each call. The same oracle runs on real fs.OSMMap where a stale slice faults.",
+                 "Histories sampled. Poisoning personality is stricter than the shipped mmap implementation.", "DESIGN.md 4/C14, 11")
